@@ -330,3 +330,31 @@ Proof.
   - intros K. destruct (s_sent s IS t K) as (K1&_). congruence.
   - intros K. apply in_map_iff in K as (sl&E&Hsl). destruct (s_queue s IS sl Hsl) as (K1&_). rewrite E in K1. congruence.
 Qed.
+
+(** ** the synchronous owner of the connection is left alone
+
+    syncDo / syncDoMulti install the connection deadline they derive from the context; the only other code that
+    touches that deadline is the first statement of _background ([p.conn.SetDeadline(time.Time{})]), i.e. the start
+    of the background workers ([p_bg] false -> true in [do_background]).  While a caller is in its synchronous
+    section nobody else uses the connection and the background workers have not been started; the step that starts
+    them ends that caller's synchronous section, so it is the caller's own step (its failure step). *)
+Lemma sync_owner_alone g sched s t :
+  prun g sched (p_init g) = Some s -> sync_user (p_calls s t) = true ->
+  p_bg s = false /\ bg_user s = false /\ (forall u, sync_user (p_calls s u) = true -> u = t).
+Proof.
+  intros H Hs. pose proof (inva_run g sched _ _ (inva_init g) H) as I.
+  assert (Hb : p_bg s = false).
+  { destruct (p_bg s) eqn:E; [|reflexivity]. rewrite (a_e2 s I E t) in Hs. discriminate. }
+  split; [exact Hb|split].
+  - destruct (a_bgw s I Hb) as [K1 K2]. unfold bg_user. rewrite K1, K2. reflexivity.
+  - intros u Hu. apply (a_tok1 s I); now apply sync_tok.
+Qed.
+
+Lemma sync_deadline_preserved g sched s t l s' :
+  prun g sched (p_init g) = Some s -> sync_user (p_calls s t) = true -> pstep g s l = Some s' ->
+  sync_user (p_calls s' t) = true -> p_bg s' = false.
+Proof.
+  intros H Hs Hstep Hs'. pose proof (inva_run g sched _ _ (inva_init g) H) as I.
+  pose proof (inva_step g s l s' I Hstep) as I'.
+  destruct (p_bg s') eqn:E; [|reflexivity]. rewrite (a_e2 s' I' E t) in Hs'. discriminate.
+Qed.
